@@ -109,6 +109,8 @@ def prop(case):
         blocks[bindex[key]][2].append(entry)
         edge_used |= edge != 0
         empty_used |= any((not t) or any(v is None for v in t) for t in vals)
+    if case['hdr'] % 3 == 0:
+        blocks.append(('no_such_instance_u99', insts[0]['cell'], [(f'(IOPATH {pins[0][1]} {list(insts[0]["outs"])[0]} (1.0:2.0:3.0) (4.0:5.0:6.0))', 'none', 0, [0, 1], None)]))
     used_pairs = set()
     nic = 0
     port_ic = False
@@ -116,9 +118,8 @@ def prop(case):
         inst, pin, src = pins[sel % len(pins)]
         if src[0] == 'n' or (src, inst['name'], pin) in used_pairs:
             continue
-        if not bf and len(rd.get(src, [])) != 1:
-            continue                      # no branch fork and several readers: no line for this interconnect
-        used_pairs.add((src, inst['name'], pin))
+        no_line = not bf and len(rd.get(src, [])) != 1     # no branch fork and several readers: there is no line for this interconnect,
+        used_pairs.add((src, inst['name'], pin))            # the entry is written anyway and must not annotate anything
         if src[0] == 'i':
             orig = truth['net'][src]
         else:
@@ -132,7 +133,7 @@ def prop(case):
         if fname not in c.forks or not c.forks[fname].ins:
             raise Violation(f'{"branch " if bf else ""}fork {fname} missing or undriven in the parsed circuit (branchforks={bf})')
         line = c.forks[fname].ins[0]
-        entry = (f'(INTERCONNECT {sdf_name(orig)} {sdf_name(inst["name"])}/{pin} {" ".join(texts)})', 'ic', line.index, [0, 1], nums)
+        entry = (f'(INTERCONNECT {sdf_name(orig)} {sdf_name(inst["name"])}/{pin} {" ".join(texts)})', 'none' if no_line else 'ic', line.index, [0, 1], nums)
         key = (None, blk)
         if key not in bindex:
             bindex[key] = len(blocks)
@@ -183,6 +184,8 @@ def prop(case):
     for bi, (iname, ctype, ents) in enumerate(blocks):
         entries = [e[0] for e in ents]
         for _, kind, li, pols, nums in ents:          # ground truth in file order: a later entry overrides an earlier one
+            if kind == 'none':
+                continue
             arr = exp_io if kind == 'io' else exp_ic
             for ip in pols:
                 arr[:, li, ip, 0] = nums[0]
